@@ -277,6 +277,7 @@ RULES = [
     ("C13-R3", "date regex groups, output format, local-time conversion of time columns", r3),
     ("C13-R4", "panic sites of the date parser are guarded or reviewed [analysis P of C10]",
      lambda ctx: __import__("c10").r1(ctx, only=lambda s: s.fn.startswith("util::datetime::") or s.fn == "function::Variant::to_datetime", rule_prefix="date-")),
+    ("X-DATEALIKE", "date look-ahead of the lexer (regex, year and month ranges)", lambda ctx: __import__("extra").looks_like_date_rule(ctx)),
 ]
 
 EXPLANATION = (
@@ -287,7 +288,8 @@ EXPLANATION = (
     "finish = value; absent -> 0..23 / 0..59 / 0..59) and the whole-day intervals of today/yesterday/offsets; "
     "(R3) the date regex's groups and their use, the output format literal, and the mtime -> Local -> naive_local "
     "conversion of the time columns. chrono's calendar arithmetic, DST, the chrono-english fallback and the lexer's "
-    "date/minus disambiguation are not decided.")
+    "date/minus disambiguation are not decided."
+    " The lexer's date look-ahead admits at least years 1970..=2999 and months 1..=12.")
 ASSUMPTIONS = ["rustc's HIR faithfully represents the source; exporter and rule scripts are correct",
                "chrono's with_hour/with_minute/with_second/and_hms_opt set exactly the named component"]
 NOT_DECIDED = ["chrono's calendar arithmetic, DST gaps and local-time conversion",
